@@ -99,6 +99,8 @@ pub(super) fn process(mut events: Vec<Event>) -> Output {
     let mut forward_parents = Vec::new();
 
     for i in 0..events.len() {
+        #[cfg(feature = "oq3_verif")]
+        crate::parser::verif::on_process_step();
         match mem::replace(&mut events[i], Event::tombstone()) {
             Event::Start {
                 kind,
@@ -113,6 +115,8 @@ pub(super) fn process(mut events: Vec<Event>) -> Output {
                 let mut idx = i;
                 let mut fp = forward_parent;
                 while let Some(fwd) = fp {
+                    #[cfg(feature = "oq3_verif")]
+                    crate::parser::verif::on_process_step();
                     idx += fwd as usize;
                     // append `A`'s forward_parent `B`
                     fp = match mem::replace(&mut events[idx], Event::tombstone()) {
